@@ -68,4 +68,34 @@ def resolveSource (s : Bytes) (ms : List Bytes) (query : Bytes) : Bytes :=
 def resolveDest (dest pathName : Bytes) (ms : List Bytes) : Bytes :=
   sim (destPhs pathName ms) dest
 
+/-! ### the glue: `staticsources.Handler` (Start(query) … Stop cycles of an on-demand source)
+
+`Start(onDemand, query)` stores the client's query; `run()` resolves `s.Conf.Source` with it every time the
+source instance is (re)created — at the start of the activation and after each failed run (`retryPause`);
+a configuration reload replaces `s.Conf` (used from the next re-creation on, and by later activations).
+Nothing else is carried from one activation to the next. -/
+
+/-- one activation: the client's query, how many runs fail before the stable one, and an optional new
+source template delivered by a reload after the first run -/
+structure Act where
+  query : Bytes
+  retries : Nat
+  reload : Option Bytes
+
+/-- the template in force after an activation -/
+def tmplAfterAct (t : Bytes) (a : Act) : Bytes := a.reload.getD t
+
+/-- `ResolvedSource` handed to the source instance at each of its runs during one activation -/
+def actRuns (t : Bytes) (ms : List Bytes) (a : Act) : List Bytes :=
+  resolveSource t ms a.query :: List.replicate a.retries (resolveSource (tmplAfterAct t a) ms a.query)
+
+/-- a whole history on one Handler -/
+def histRuns (t : Bytes) (ms : List Bytes) : List Act → List (List Bytes)
+  | [] => []
+  | a :: r => actRuns t ms a :: histRuns (tmplAfterAct t a) ms r
+
+def tmplAfter (t : Bytes) : List Act → Bytes
+  | [] => t
+  | a :: r => tmplAfter (tmplAfterAct t a) r
+
 end MtxVerif.C42
